@@ -61,8 +61,8 @@ func runUDPFree(sc udpScen, idx int) (*udpTrace, error) {
 		vh.RegisterRec(vh.ClientAddr(c).String(), rec)
 	}
 	g := &udpGates{rec: rec, hold: map[string]chan struct{}{}, reached: map[string]chan struct{}{}}
-	layer4.VerifHook = g.hook
-	defer func() { layer4.VerifHook = nil }()
+	layer4.SetVerifHook(g.hook)
+	defer layer4.SetVerifHook(nil)
 	go layer4.VerifServePacket(srv, pc)
 	seq := 0
 	for i := 0; i < sc.PerClient; i++ {
@@ -159,8 +159,8 @@ func runUDPCloseRace(idx int, reads int, size int) (*udpTrace, error) {
 	rec := vh.NewRecorder(nil)
 	pc := vh.NewFakePC(rec)
 	g := &udpGates{rec: rec, hold: map[string]chan struct{}{}, reached: map[string]chan struct{}{}}
-	layer4.VerifHook = g.hook
-	defer func() { layer4.VerifHook = nil }()
+	layer4.SetVerifHook(g.hook)
+	defer layer4.SetVerifHook(nil)
 	srv, cancel, err := udpServer(map[string]any{"handler": "verif_h", "k": "udp", "n": reads, "echo": true})
 	if err != nil {
 		return nil, err
